@@ -252,7 +252,14 @@ def run_history(ctx, ops, record=True):
             key = model_key(cname, args, kwargs)  # from the arguments as passed: __init__ may edit them in place
             passed_kwargs = json.loads(json.dumps(kwargs))
             n0 = len(INIT_LOG)
-            res = oracles.outcome(cls, *args, **kwargs)
+            if k % 4 == 2:
+                # (every fourth construction is made while the caller is handling an unrelated exception)
+                try:
+                    raise LookupError("something unrelated the caller is dealing with")
+                except LookupError:
+                    res = oracles.outcome(cls, *args, **kwargs)
+            else:
+                res = oracles.outcome(cls, *args, **kwargs)
             kwargs = passed_kwargs
             if res[0] != "ok" and cname == "Picky" and key not in model[cname] and res[1] is ValueError:
                 # the constructor refused: no instance was handed out, so no mapping may exist (checked below through
